@@ -298,9 +298,9 @@ def cred_other_curve_same_xy(s, r):
 def cred_xy_split_elsewhere(s, r):
     # the credential key's x and y members are two byte strings, each a coordinate: moving bytes across the boundary between them (x shorter, y longer, the
     # CONCATENATION unchanged) names other numbers - not the key the certificate / the signature is about
-    m = dict(Cred(s.kind).cose)
-    if -3 not in m:
-        return self_other_key(s, r)
+    if authsim.KINDS[s.kind][0] != "ec":
+        s.kind = "ES256-P256"          # (the fault is about EC2 keys: x and y)
+    m = dict(Cred(s.kind, slot=s.cred_slot).cose)
     X, Y = m[-2], m[-3]
     k_ = r.choice([len(X) - 1, len(X) - 2, 1, len(X) + 1, len(X) + 7])
     xy = X + Y
